@@ -52,10 +52,15 @@ package workerapi
 //@ func (*Server).leaseBatchLimit
 //@   trusted
 
+// grpc status.Error returns a non-nil error for every code other than OK (assumed, google.golang.org/grpc/status)
+//@ spec
+//@ axiom [grpc_status_error_is_an_error] forall c int, m string :: c != 0 ==> ext("google.golang.org/grpc/status.Error", c, m) != nil
+
 //@ func mapOpError
 //@   ensures [C04:conflict_is_failed_precondition] opErr != nil && opErr.StatusCode == 409 ==> result == ext("google.golang.org/grpc/status.Error", codes.FailedPrecondition, opErr.Detail)
 //@   ensures [C11:unauthorized_is_unauthenticated] opErr != nil && opErr.StatusCode == 401 ==> result == ext("google.golang.org/grpc/status.Error", codes.Unauthenticated, opErr.Detail)
 //@   ensures [nil_is_nil] opErr == nil ==> result == nil
+//@   ensures [C04:an_operation_error_is_never_reported_as_success] opErr != nil ==> result != nil
 
 //@ func (*Server).resolveRoute
 //@   requires s != nil
@@ -86,7 +91,18 @@ package workerapi
 //@   modifies *
 //@   calls Extend requires [C11:extend_only_after_authorize] authzPassed == old(authzPassed) + 1
 
+//@ func cloneStringMap
+//@   loop 1 invariant [copied] forall k string :: k in visited ==> k in out && out[k] == in[k]
+//@   loop 1 invariant [only] forall k string :: k in out ==> k in in && out[k] == in[k]
+//@   loop 1 invariant [fresh] out != nil && fresh(out) && out != in
+//@   ensures [C07:same_content] forall k string :: ((k in result) <==> (k in in)) && (k in in ==> result[k] == in[k])
+//@   ensures [fresh_or_nil] result == nil || fresh(result)
+//@ extern google.golang.org/protobuf/types/known/timestamppb.New(t) (ts)
+//@   ensures ts != nil && fresh(ts)
+
 //@ func (*Server).Dequeue
 //@   requires s != nil
 //@   modifies *
 //@   calls Dequeue requires [C11:dequeue_only_after_authorize] authzPassed == old(authzPassed) + 1
+//@   loop 1 invariant [copied_so_far] rangeindex < len(outcome.Items) && len(items) == rangeindex + 1 && forall k int :: 0 <= k && k < len(items) ==> items[k] != nil && items[k].Payload == outcome.Items[k].Payload && items[k].Id == outcome.Items[k].ID && items[k].LeaseId == outcome.Items[k].LeaseID && items[k].Route == outcome.Items[k].Route && (forall h string :: ((h in items[k].Headers) <==> (h in outcome.Items[k].Headers)) && (h in outcome.Items[k].Headers ==> items[k].Headers[h] == outcome.Items[k].Headers[h]))
+//@   ensures [C07:grpc_items_carry_the_stored_bytes_and_headers] result1 == nil ==> result0 != nil && len(result0.Items) == len(lastDequeued) && forall k int :: 0 <= k && k < len(result0.Items) ==> result0.Items[k] != nil && result0.Items[k].Payload == lastDequeued[k].Payload && result0.Items[k].Id == lastDequeued[k].ID && result0.Items[k].LeaseId == lastDequeued[k].LeaseID && (forall h string :: ((h in result0.Items[k].Headers) <==> (h in lastDequeued[k].Headers)) && (h in lastDequeued[k].Headers ==> result0.Items[k].Headers[h] == lastDequeued[k].Headers[h]))
